@@ -36,6 +36,8 @@ def exprs(tier):
     out = [a for a in L.solids(tier) + L.products(tier) if G.free_vars(a)] + two + mixed
     out += [L.B(a) for a in out if G.is_solid(a) and not G.has_kind_prod(a)][: (25 if tier == "quick" else 10 ** 6)]
     out += [L.BL(L.I_MOVE), L.BR(L.I_GROW), L.Pt([L.aff(0, t=1), 0.5])]
+    # shape / motion functions that DECLARE a default for a variable: fixing that optional variable by a call must count
+    out += L.default_exprs(tier)[:3] + [L.Rot(L.SQ, G.affd(0.0, {"w": 1.0}, t=1.0, w=0.5))]
     return L.dedupe(out)
 
 
@@ -92,7 +94,8 @@ def run_item(item):
         viol("C17|error|%s|constructor|%s" % (type(e).__name__, top_sig(a)), "constructor raised %s" % exc_sig(e))
         return res
     nv0 = set(D.necessary_variables)
-    if nv0 != set(fv):
+    opt = G.defaulted_vars(a)        # optional (defaulted) variables are not "needed"
+    if nv0 != set(fv) - opt:
         viol("C17|necessary-variables|%s" % top_sig(a), "necessary_variables = %s, free variables of the expression = %s" % (sorted(nv0), fv))
 
     def check_tree(Dx, ax, when):
@@ -111,9 +114,7 @@ def run_item(item):
         for sub, sa in subs:
             if sub is None or not hasattr(sub, "necessary_variables"):
                 continue
-            want = set(G.free_vars(sa))
-            if k == "prod" and sa is ax["a"]:
-                pass
+            want = set(G.free_vars(sa)) - G.defaulted_vars(sa)
             if set(sub.necessary_variables) != want:
                 viol("C17|operand-necessary-variables|%s" % top_sig(ax),
                      "%s: operand %s declares necessary_variables %s, its free variables are %s" % (when, G.show(sa), sorted(sub.necessary_variables), sorted(want)))
@@ -152,6 +153,11 @@ def run_item(item):
         return obs, Bd.to_vals(P, R)
 
     for hist in histories(fv, BOUNDS[tier]["values"]):
+        # a shape function is evaluated as soon as its REQUIRED variables are bound, absent optional ones taking their
+        # defaults (that is C13's rule); so only histories whose first call fixes every optional variable have the
+        # plain meaning "the original evaluated at these values"
+        if opt and not opt <= set(hist[0]):
+            continue
         fixed = {}
         for step in hist:
             for v, x in step.items():
@@ -180,7 +186,7 @@ def run_item(item):
             # necessary variables = free variables of the substituted expression
             try:
                 nv = set(E.necessary_variables)
-                if nv != set(rest_vars):
+                if nv != set(rest_vars) - opt:
                     viol("C17|necessary-variables-after-call|%s" % top_sig(a), "after %s necessary_variables = %s, expected %s" % (hist, sorted(nv), rest_vars))
             except Exception as e:
                 viol("C17|error|%s|necessary_variables|%s" % (type(e).__name__, top_sig(a)), "necessary_variables after %s raised %s" % (hist, exc_sig(e)))
@@ -246,13 +252,13 @@ def run_item(item):
                                 hist, enc, mode, {v: sv[v][i].tolist() for v in order}, full))
             # branch: evaluate the ORIGINAL again, fixing a different variable; the earlier history must not show
             for u in fv:
-                if u in hist[0]:
+                if u in hist[0] or opt:
                     continue
                 for w in BOUNDS[tier]["values"][:2]:
                     try:
                         E2 = D(**{u: encode(w, enc)})
                         nv2 = set(E2.necessary_variables)
-                        if nv2 != set(fv) - {u}:
+                        if nv2 != set(fv) - {u} - opt:
                             viol("C17|original-changed|branch-necessary-variables|%s" % top_sig(a),
                                  "after %s, evaluating the ORIGINAL at %s=%s gives necessary_variables %s, expected %s" % (hist, u, w, sorted(nv2), sorted(set(fv) - {u})))
                             continue
